@@ -74,6 +74,11 @@ const (
 	tGetXYZ         // GET /a/{x}/{y}/z : a method with its own, longer path
 	tURLParam2      // URL /a/{x}/{y}
 	tGetNm          // GET /l/{nm}/x : same first segment as URL /l/{id}, another parameter name
+	tTypeRegex      // TYPE @l regex /[ab]{3}/ : a regex type with more than one match
+	tRespObjRef     // 200 {"n": @l} : an object whose property is a user type (its example embeds an example of the type)
+	tPathRefT       // Path @l : a Path body that is a bare reference to a user type
+	tTypeRefT       // TYPE @l = @next(l) : a type whose body is a bare reference to another type
+	tTypeIdObj      // TYPE @l {"id": 1}
 )
 
 var verifTplNames = []string{"JSIGHT", "INFO", "Title", "Version", "SERVER", "BaseUrl", "URL", "GET", "POST", "GET /p", "Request any",
@@ -96,7 +101,7 @@ func verifLetter(name string) string {
 func verifLine(t int) (string, string) {
 	l := ""
 	switch t {
-	case tServer, tURL, tGetPath, tTypeAny, tMacro, tPaste, tTag, tTags, tMethod, tDescription, tEnum, tTypeObj, tTypeAllOf, tRespRef, tURLParam, tTypeNested, tRespArr, tResult, tGetNm:
+	case tServer, tURL, tGetPath, tTypeAny, tMacro, tPaste, tTag, tTags, tMethod, tDescription, tEnum, tTypeObj, tTypeAllOf, tRespRef, tURLParam, tTypeNested, tRespArr, tResult, tGetNm, tTypeRegex, tRespObjRef, tPathRefT, tTypeRefT, tTypeIdObj:
 		l = verifLetter("l")
 	}
 	return verifLineWith(t, l), l
@@ -218,6 +223,17 @@ func verifLineWith(t int, l string) string {
 		return "URL /a/{x}/{y}"
 	case tGetNm:
 		return "GET /" + l + "/{nm}/x"
+	case tTypeRegex:
+		return "TYPE @" + l + " regex\n/[ab]{3}/"
+	case tRespObjRef:
+		return "200\n{\"n\": @" + l + "}"
+	case tPathRefT:
+		return "Path\n@" + l
+	case tTypeRefT:
+		next := map[string]string{"a": "b", "b": "c", "c": "a"}[l]
+		return "TYPE @" + l + "\n@" + next
+	case tTypeIdObj:
+		return "TYPE @" + l + "\n{\"id\": 1}"
 	case tParams:
 		return "Params\n{\"p\": 1}"
 	case tResult:
@@ -436,7 +452,16 @@ func VerifH_PipelineTotal() {
 		header = true
 		menu = []int{tEnum, tTypeObj, tTypeAllOf, tTypeNested, tGetPath, tRespRef, tURLParam, tPathDir, tRequestObj, tMacro, tPaste}
 	}
-	text, _ := verifDocLines(menu, k, header)
+	var text string
+	if verifrt.Bound("MENU") == 2 {
+		// chains of type references: a Path body that is a reference to a type that is a reference to a
+		// type ... (also cyclic), under a fixed "URL /a/{id}"
+		verifLetters = 3
+		_, more := verifDocLines([]int{tPathRefT, tTypeRefT, tTypeIdObj, tGet}, k, false)
+		text = verifRender(append([]refLine{{t: tJsight, parent: -1}, {t: tURLParam, letter: "a", parent: -1}}, more...))
+	} else {
+		text, _ = verifDocLines(menu, k, header)
+	}
 	verifrt.Note("doc", text)
 	core, je := verifRun(text)
 	if je != nil {
@@ -513,7 +538,12 @@ func VerifH_CatalogStructure() {
 	if !ok {
 		return
 	}
-	got := verifSig(core.catalog)
+	var got []string
+	for _, l := range verifSig(core.catalog) {
+		if !strings.Contains(l, " example=") { // generated examples are not part of the reference model
+			got = append(got, l)
+		}
+	}
 	want := refCatalogSig(lines)
 	verifrt.Assert("C04.structure.size", len(got) == len(want))
 	if len(got) == len(want) {
@@ -650,6 +680,9 @@ func verifSchemaSig(prefix string, s *catalog.Schema) []string {
 		}
 	}
 	walk(prefix, s.ContentJSight)
+	if s.Example != "" {
+		out = append(out, prefix+" example="+s.Example)
+	}
 	if s.UsedUserTypes != nil {
 		for _, u := range s.UsedUserTypes.Data() {
 			out = append(out, prefix+" usesType "+u)
